@@ -122,8 +122,11 @@ C13_Monotone(ev) ==
   => (Success(ev) /\ S!StartsWith(ev.res, T[ev.sprev].res))
 C13_Full(ev) ==
   (ev.rbnull = 0 /\ ev.s192 > 0 /\ ev.s192 < l /\ IsGs(T[ev.s192].e) /\ SameReq(T[ev.s192], ev) /\ Size(T[ev.s192]) = G!GENSALT_OUTPUT_SIZE)
-  => /\ (Success(ev) => (Success(T[ev.s192]) /\ S!StartsWith(T[ev.s192].res, ev.res)))
-     /\ (Size(ev) >= G!GENSALT_OUTPUT_SIZE => (Success(ev) = Success(T[ev.s192]) /\ (Success(ev) => ev.res = T[ev.s192].res)))
+  => /\ ((Success(ev) /\ Size(ev) <= G!GENSALT_OUTPUT_SIZE) => (Success(T[ev.s192]) /\ S!StartsWith(T[ev.s192].res, ev.res)))
+     \* sizes at or above the documented one receive the same result -- for up to 64 random bytes, for which the
+     \* documented size is promised to suffice (with more bytes a larger buffer may legitimately succeed where 192 did not)
+     /\ ((Size(ev) >= G!GENSALT_OUTPUT_SIZE /\ ev.nrbytes <= 64) => (Success(ev) = Success(T[ev.s192]) /\ (Success(ev) => ev.res = T[ev.s192].res)))
+     /\ ((Size(ev) >= G!GENSALT_OUTPUT_SIZE /\ Success(T[ev.s192])) => (Success(ev) /\ ev.res = T[ev.s192].res))
 \* CRYPT_GENSALT_OUTPUT_SIZE always suffices for up to 64 random bytes: never ERANGE there
 C13_Enough(ev) ==
   (Size(ev) >= G!GENSALT_OUTPUT_SIZE /\ (ev.rbnull = 1 \/ ev.nrbytes <= 64)) => (Success(ev) \/ ev.errno # G!ERANGE)
